@@ -30,7 +30,7 @@ FAULTS = [
     _f("if 1 then 2 else 3", "if 1"), _f("if TRUE then undefined_zz_q else 3", "undefined_zz_q"), _f("while 1 do 2 end", "while 1"),
     _f("for q_z in 5 do 2 end", "for 5"), _f("1 and TRUE", "1 and"), _f("TRUE and 1", "TRUE and 1"), _f("FALSE or 1", "FALSE or 1"),
     _f("[1, 2]['x']", "[ x"), _f("f_undefined_q(1)", "f_undefined_q ("), _f("- 'a'", "- a"), _f("'a' * 'b'", "a * b"),
-    _f("def [a_q, b_q] = 5", "def [ 5"), _f("x_undef_q += 1", "x_undef_q +="), _f("x_undef_q = 1", "x_undef_q ="),
+    _f("def [a_q, b_q] = 5", "def [ 5"), _f("'a doc string' def [a_q, b_q] = 5", "def [ 5"), _f("'doc' def f_doc_q(x) x; f_doc_q()", "f_doc_q ("), _f("x_undef_q += 1", "x_undef_q +="), _f("x_undef_q = 1", "x_undef_q ="),
     _f("require NoSuchModuleZq", "require NoSuchModuleZq"), _f("[1 for x_q in 5]", "[ 1 5"), _f("<<1 for x_q in 5>>", "<< 1 5"),
     _f("<<<1 => 2 for x_q in 5>>>", "<<< 1 5"), _f("1 is undefined_zz_q", "1 is undefined_zz_q"), _f("<* a = 1 *> -> b()", "<* -> b ("),
     _f("[1] !> undefined_zz_q()", "[ undefined_zz_q ("), _f("[3] !> length(2, 3)", "[ length ("), _f("7 !> undefined_zz_q(1) !> string()", "7 undefined_zz_q ("),
